@@ -81,7 +81,7 @@ def gen_front_kind(rng, N, M, k):
 
 def warm_front(label, M):
     """the front an operator object is used on before the recorded call: another number of objectives, tie-free"""
-    M2 = 2 if (BASE.get(label, label) == "pcd" or M >= 4) else 5
+    M2 = 2 if (BASE.get(label, label) == "pcd" or M >= 3) else 5
     if M2 == M:
         M2 = 3 if BASE.get(label, label) != "pcd" else 2
     r = np.random.RandomState(97 * M + M2)
@@ -161,6 +161,25 @@ def corpus(pid):
             out.append({"label": lab, "n_remove": nr, "F": W_LINE, "exact_ties": True})     # F5 ties
         out.append({"label": lab, "n_remove": 0, "F": W_CONST})         # F5 zero range
         out.append({"label": lab, "n_remove": 2, "F": W_CONST})
+    # clamping of n_remove around N - M on small fronts in 3 / 4 objectives on which at least two points are not extremes
+    # (found by rejection from a fixed seed), with 2nn and mnn
+    rs = np.random.RandomState(777)
+    for M_ in (3, 4):
+        for N_ in (M_ + 1, M_ + 2, M_ + 3):
+            found = 0
+            for _ in range(4000):
+                Fs = nds_front(np.round(rs.random_sample((N_, M_)), 3))
+                if len(Fs) != N_ or len(np.unique(Fs)) != Fs.size:
+                    continue
+                ex = set(np.argmin(Fs, axis=0)) | set(np.argmax(Fs, axis=0))
+                if len(ex) > N_ - 2:
+                    continue
+                for nr in sorted({N_ - M_ + 1, N_ - 1, N_}):
+                    for lab in ("2nn", "mnn"):
+                        out.append({"label": lab, "n_remove": nr, "F": Fs})
+                found += 1
+                if found == 2:
+                    break
     out.append({"label": "mnn", "n_remove": 2, "F": W_F9})               # F9 (known finding of C14)
     out.append({"label": "pcd", "n_remove": 0, "F": W_F7})               # F7
     out.append({"label": "pcd", "n_remove": 2, "F": W_F7})
